@@ -584,4 +584,11 @@ def witness(failure, ctx):
                         "how": "vreplay builder-batch on the real Builder vs C12's statement"}
         if lines and lines[-1].startswith("bound=") and int(lines[-1][6:]) != nid:
             return {"found": True, "exhaustive": False, "input": s, "observed": lines[-1], "disagreement": "bound %s, next id %d" % (lines[-1], nid)}
-    return {"found": False, "exhaustive": False, "how": "%d call sequences (all of length <= 4 over 13 calls) agreed with C12/C13" % len(scripts)}
+    # C13: every ordered pair of 31 implicit type requests (dedup / distinct ids / no duplicate declaration), explicit ids
+    p2, err2 = ctx["vreplay"](["dedup-sweep"], timeout=600)
+    if p2 is not None and p2.returncode == 0:
+        mm = [l for l in p2.stdout.splitlines() if l.startswith("MISMATCH")]
+        if mm:
+            return {"found": True, "exhaustive": False, "input": mm[0], "observed": mm[:5], "disagreement": "type requests: " + mm[0],
+                    "how": "vreplay dedup-sweep on the real Builder (all ordered pairs of 31 type requests)"}
+    return {"found": False, "exhaustive": False, "how": "%d call sequences (all of length <= 4 over 13 calls) agreed with C12/C13; dedup sweep over 961 request pairs" % len(scripts)}
